@@ -231,12 +231,45 @@ class Kinds:
                 elif isinstance(st, ast.AugAssign) and isinstance(st.target, ast.Name) and st.target.id == e.id:
                     vals |= self.kind(fn, st.value, at, depth + 1)
                     found = True
+                elif isinstance(st, ast.Assign) and len(st.targets) == 1 and isinstance(st.targets[0], ast.Tuple):
+                    # `a, b = <pair>`: the kind of the element that lands in the name
+                    idx = [i_ for i_, t_ in enumerate(st.targets[0].elts) if isinstance(t_, ast.Name) and t_.id == e.id]
+                    if idx:
+                        vals |= self._element_kind(fn, st.value, idx[0], len(st.targets[0].elts), at, depth + 1)
+                        found = True
             if not found:
                 t = self.g.types.locals_of(fn).get(e.id)
                 vals = self._ty_kinds(t)
             return self._narrow(fn, e.id, vals, at)
         if isinstance(e, ast.JoinedStr):
             return {"str"}
+        if isinstance(e, ast.Subscript) and self.kind(fn, e.value, at, depth + 1) == {"str"}:
+            return {"str"}  # a character or a slice of a string is a string
+        return {"?"}
+
+    def _element_kind(self, fn: FuncInfo, v: ast.AST, i: int, n: int, at: Optional[ast.AST], depth: int) -> Set[str]:
+        """kind of element i of an n-tuple valued expression: a tuple display, or a call of a function of the package all of
+        whose returns are n-tuple displays (element i of each, in the callee's own scope)"""
+        if depth > 6:
+            return {"?"}
+        if isinstance(v, ast.Tuple) and len(v.elts) == n and not any(isinstance(x, ast.Starred) for x in v.elts):
+            return self.kind(fn, v.elts[i], at, depth + 1)
+        if isinstance(v, ast.Call):
+            r = self.repo.resolve_expr(fn.module, v.func, fn.cls)
+            if r is None and isinstance(v.func, ast.Attribute) and isinstance(v.func.value, ast.Name) and v.func.value.id in ("self", "cls") and fn.cls is not None:
+                r = self.repo.lookup_method(fn.cls, v.func.attr)
+            if r is None and isinstance(v.func, ast.Name):
+                f2: Optional[FuncInfo] = fn
+                while f2 is not None and r is None:
+                    r = f2.nested.get(v.func.id)
+                    f2 = f2.parent
+            if isinstance(r, FuncInfo):
+                rets = [x for x in walk_no_nested(r.node) if isinstance(x, ast.Return)]
+                if rets and all(isinstance(x.value, ast.Tuple) and len(x.value.elts) == n and not any(isinstance(y, ast.Starred) for y in x.value.elts) for x in rets):
+                    out: Set[str] = set()
+                    for x in rets:
+                        out |= self.kind(r, x.value.elts[i], x, depth + 1)  # type: ignore
+                    return out
         return {"?"}
 
     def const_kind(self, fn: FuncInfo, e: ast.AST) -> Set[str]:
